@@ -1173,4 +1173,28 @@ var predEntries = []predEntry{
 	{"parseDVBDurationByte", false},
 	{"dvbDurationByteRepresentation", false},
 	{"calcPATSectionLength", false},
+	// C14: descriptor length calculators
+	{"calcDescriptorAC3Length", false},
+	{"calcDescriptorAVCVideoLength", false},
+	{"calcDescriptorComponentLength", false},
+	{"calcDescriptorContentLength", false},
+	{"calcDescriptorDataStreamAlignmentLength", false},
+	{"calcDescriptorEnhancedAC3Length", false},
+	{"calcDescriptorExtendedEventLength", false},
+	{"calcDescriptorExtensionSupplementaryAudioLength", false},
+	{"calcDescriptorISO639LanguageAndAudioTypeLength", false},
+	{"calcDescriptorLocalTimeOffsetLength", false},
+	{"calcDescriptorMaximumBitrateLength", false},
+	{"calcDescriptorNetworkNameLength", false},
+	{"calcDescriptorParentalRatingLength", false},
+	{"calcDescriptorPrivateDataIndicatorLength", false},
+	{"calcDescriptorPrivateDataSpecifierLength", false},
+	{"calcDescriptorRegistrationLength", false},
+	{"calcDescriptorServiceLength", false},
+	{"calcDescriptorShortEventLength", false},
+	{"calcDescriptorStreamIdentifierLength", false},
+	{"calcDescriptorSubtitlingLength", false},
+	{"calcDescriptorTeletextLength", false},
+	{"calcDescriptorVBIDataLength", false},
+	{"calcDescriptorUnknownLength", false},
 }
